@@ -220,7 +220,7 @@ var _ = ctrl.New
 // Prop returns the C06 check.
 func Prop() *core.Prop {
 	req := []string{"stress_histories", "sentinels_answered", "routed_to_caller", "routed_to_handler", "porcupine_partitions",
-		"receipts_acknowledged", "receipts_cancelled", "forced_scenarios", "fast_peer_holds", "fast_peer_answer_processed_while_sender_held"}
+		"receipts_acknowledged", "receipts_cancelled", "forced_scenarios", "fast_peer_holds", "fast_peer_answer_processed_while_sender_held", "requests_explicitly_namespaced"}
 	for _, v := range vias {
 		req = append(req, "requests:"+v.name)
 	}
